@@ -4,7 +4,7 @@ CONSTANTS
   Gaps = {1,2,3}
   PMax = 33
   MaxLen = 8
-  ObsPos = {10,20}
+  ObsPos = {12,20}
   ObsCard = {2}
   ObsW2 = {}
   Cond = "none"
